@@ -271,6 +271,174 @@ def judge(mode, got):
     return None
 
 
+# ------------------------------------------------------------------ libFuzzer (thorough tier; search only)
+FZ_DELIMS = [44, 59, 9, 58, 124, 0]
+
+
+def fz_encode(line):
+    """a harness case line -> input of harness/h_csv_fuzz.cc (None when the case has no encoding)"""
+    w = line.split(" ")
+    if w[0] == "xrff":
+        return bytes([2, 0, 0, 0, 0]) + cc.unhx(w[2])
+    if w[0] == "prob":
+        return bytes([3, 0, 0, 0, 0]) + cc.unhx(w[2])
+    if w[0] != "csv":
+        return None
+    delim, hdr, trim, out, flt = int(w[3]), int(w[4]), int(w[5]), int(w[6]), w[7]
+    if delim not in FZ_DELIMS or out > 9:
+        return None
+    f = {"N": 0, "D:0": 1, "D:1": 2}.get(flt)
+    if f is None:
+        return None
+    return bytes([0, FZ_DELIMS.index(delim), hdr + 1, 255 if out < 0 else out, trim | (f << 1)]) + cc.unhx(w[2])
+
+
+def fz_decode(data):
+    """inverse of the decoding done by LLVMFuzzerTestOneInput: fuzzer input -> harness case (mode, line)"""
+    if len(data) < 5:
+        return None
+    mode = data[0] % 4
+    text = data[5:]
+    if mode == 2:
+        return "xrff", "xrff fixed %s N" % cc.hx(text)
+    if mode == 3:
+        return "prob", "prob fixed %s 0" % cc.hx(text)
+    if mode == 1:
+        delim, hdr = 0, -1
+    else:
+        delim, hdr = FZ_DELIMS[data[1] % 6], data[2] % 3 - 1
+    out = None if data[3] >= 10 else data[3]
+    f = (data[4] >> 1) & 3
+    flt = {0: "N", 1: "D:0", 2: "D:1", 3: "N"}[f]
+    return "csv", cc.csv_line(text, delim, hdr, bool(data[4] & 1), out, flt)
+
+
+def build_fuzzer():
+    """clang++ -fsanitize=fuzzer,address,undefined build of the library sources + harness/h_csv_fuzz.cc (cached by
+    source hash in the private build directory)"""
+    import glob
+    import hashlib
+    import os
+    import shutil
+    src = os.path.join(vv.REPO, "src")
+    hh = hashlib.sha256(open(os.path.join(vv.VERIF, "harness", "h_csv_fuzz.cc"), "rb").read()).hexdigest()[:10]
+    d = os.path.join(vv.BUILD, "private-csv", "fuzz-%s-%s" % (vv.src_hash(), hh))
+    exe = os.path.join(d, "fz")
+    if os.path.exists(exe):
+        return exe
+    for old in glob.glob(os.path.join(vv.BUILD, "private-csv", "fuzz-*")):
+        shutil.rmtree(old, ignore_errors=True)
+    snap = d + "-src"
+    shutil.rmtree(snap, ignore_errors=True)
+    os.makedirs(d)
+    for sd in vv.SRC_DIRS:
+        shutil.copytree(os.path.join(src, sd), os.path.join(snap, sd))
+    flags = ["-std=c++17", "-O1", "-g", "-DNDEBUG", "-DVITA_VERIF", "-w", "-fno-sanitize-recover=all",
+             "-I" + snap, "-isystem", os.path.join(snap, "third_party")]
+    ccs = []
+    for sd in vv.SRC_DIRS:
+        for dp, dn, fn in os.walk(os.path.join(snap, sd)):
+            for f in sorted(fn):
+                if f.endswith(".cc") and "/test" not in dp and "/examples" not in dp:
+                    ccs.append(os.path.join(dp, f))
+    import concurrent.futures
+
+    def comp(c):
+        o = os.path.join(d, os.path.relpath(c, snap).replace("/", "_")[:-3] + ".o")
+        rc, out = vv.sh(["clang++"] + flags + ["-fsanitize=fuzzer-no-link,address,undefined", "-c", c, "-o", o], timeout=600)
+        return rc, out, o
+    with concurrent.futures.ThreadPoolExecutor(vv.NPROC) as ex:
+        res = list(ex.map(comp, ccs))
+    bad = [out for rc, out, o in res if rc != 0]
+    if bad:
+        raise vv.BuildError("fuzz build: " + bad[0][-2000:])
+    rc, out = vv.sh(["clang++"] + flags + ["-fsanitize=fuzzer,address,undefined",
+                                            os.path.join(vv.VERIF, "harness", "h_csv_fuzz.cc")] + [o for _, _, o in res]
+                    + ["-lpthread", "-o", exe], timeout=600)
+    if rc != 0:
+        raise vv.BuildError("fuzz link: " + out[-2000:])
+    for _, _, o in res:
+        os.remove(o)
+    shutil.rmtree(snap, ignore_errors=True)
+    return exe
+
+
+def run_fuzzer(ck, harness, seed_lines, seconds):
+    """bounded libFuzzer run over read_csv / read_xrff / src_problem, corpus seeded from the model's boundary cases
+    (the corpus of this check).  SEARCH ONLY: a crash is confirmed on the ordinary harness and reported with a replay;
+    the absence of crashes proves nothing and is not counted as proof."""
+    import glob
+    import os
+    import shutil
+    import time
+    t0 = time.time()
+    try:
+        exe = build_fuzzer()
+    except vv.BuildError as e:
+        ck.notes.append("libFuzzer target not built (%s): fuzzing skipped" % str(e)[:200])
+        return
+    work = os.path.join(vv.BUILD, "private-csv", "fuzzrun-%d" % os.getpid())
+    shutil.rmtree(work, ignore_errors=True)
+    os.makedirs(os.path.join(work, "corpus"))
+    os.makedirs(os.path.join(work, "art"))
+    n = 0
+    for l in seed_lines:
+        b = fz_encode(l)
+        if b is not None and len(b) < 4096:
+            with open(os.path.join(work, "corpus", "s%05d" % n), "wb") as f:
+                f.write(b)
+            n += 1
+    jobs = min(8, vv.NPROC)
+    env = vv.san_env()
+    env["ASAN_OPTIONS"] = "detect_leaks=1:allocator_may_return_null=1"
+    rc, out = vv.sh([exe, "corpus", "-max_total_time=%d" % seconds, "-timeout=20", "-rss_limit_mb=4096", "-max_len=4096",
+                     "-artifact_prefix=art/", "-jobs=%d" % jobs, "-workers=%d" % jobs, "-seed=%d" % ck.seed,
+                     "-print_final_stats=1"], cwd=work, timeout=seconds + 300, env=env)
+    execs = 0
+    import re
+    for lf in glob.glob(os.path.join(work, "fuzz-*.log")):
+        with open(lf, errors="replace") as f:
+            m = re.findall(r"stat::number_of_executed_units:\s*(\d+)", f.read())
+        execs += sum(int(x) for x in m)
+    arts = sorted(glob.glob(os.path.join(work, "art", "*")))
+    ck.coverage["fuzz"] = {"seconds": seconds, "jobs": jobs, "seed_inputs": n, "executions": execs,
+                           "artifacts": [os.path.basename(a) for a in arts][:20], "wall_s": round(time.time() - t0, 1),
+                           "note": "search only, not counted as proof"}
+    seen = set()
+    for a in arts[:12]:
+        data = open(a, "rb").read()
+        dec = fz_decode(data)
+        kind = os.path.basename(a).split("-")[0]
+        if dec is None:
+            continue
+        mode, line = dec
+        hout, crashes = cc.pc.run_harness_resilient(harness, [line])
+        ho = hout[0]
+        got = cc.parse_out(ho[len("CRASH-AT-EXIT "):] if ho and ho.startswith("CRASH-AT-EXIT ") else ho)
+        replay = {"mode": mode, "line": line, "impl": ho, "fuzzer_artifact": os.path.basename(a), "artifact_hex": data.hex()[:4000],
+                  "input_text": cc.unhx(line.split(" ")[2]).decode("latin1")[:400], "found_by": "libFuzzer (search)"}
+        if got["kind"] == "CRASH":
+            key = "fuzz:%s:sanitizer:%s" % (mode, crash_site(crashes.get(0, "")))
+            what = "undefined behaviour while reading (found by the fuzzer, confirmed on the harness)"
+            replay["sanitizer"] = crashes.get(0, "")[-2500:]
+        elif ho and ho.startswith("CRASH-AT-EXIT "):
+            key, what = "fuzz:%s:leak" % mode, "memory leaked while reading (found by the fuzzer, confirmed on the harness)"
+            replay["sanitizer"] = crashes.get(0, "")[-2500:]
+        else:
+            v = judge(mode, got)
+            if v:
+                key, what = "fuzz:" + v[0], v[1]
+            elif kind in ("timeout", "oom", "slow"):
+                key, what = "fuzz:%s:%s" % (mode, kind), "the fuzzer reports %s on this input (not reproduced as a crash)" % kind
+            else:
+                key = "fuzz:%s:unconfirmed-%s" % (mode, kind)
+                what = "the fuzzer target failed on this input (%s) but the harness handles it: %s" % (kind, (ho or "")[:100])
+        if key not in seen:
+            seen.add(key)
+            ck.add_violation(key, what, replay)
+    shutil.rmtree(work, ignore_errors=True)
+
+
 def run(ck):
     res = vv.prove("Properties_C10", set())
     ck.add_proof(res)
@@ -347,6 +515,8 @@ def run(ck):
     ck.coverage["outcomes"] = hist
     ck.coverage["xrff_zero_returns"] = zero_returns
     run_path_batch(ck, harness, model)
+    if ck.thorough and not ck.replay_path:
+        run_fuzzer(ck, harness, [c["line"] for c in cases[:600]], 150)
     import os
     if os.environ.get("VV_DEBUG"):
         for d in ck.diffs[:int(os.environ["VV_DEBUG"])]:
